@@ -2,8 +2,10 @@ package props
 
 import (
 	"fmt"
+	"math/rand"
 	"runtime"
 	"sync"
+	"sync/atomic"
 	"time"
 
 	fpgo "github.com/TeaEntityLab/fpGo/v2"
@@ -194,4 +196,179 @@ func c07IdleThenBurst(id string, interval time.Duration, rounds int, seed int64)
 			}
 		}
 	}}
+}
+
+// c07Reconfigure: the overflow bound is changed on the LIVE queue (SetBufferSizeMaximum shrinking below / growing above
+// the number of values currently buffered) between Offers, Polls and loader passes. Values accepted before a shrink stay
+// accepted: everything accepted comes out exactly once in FIFO order, Count() = accepted - delivered at quiescence,
+// an Offer is accepted only while fewer than capacity + (current maximum) values are held and refused (Full) only
+// when at least (current maximum) values are held.
+func c07Reconfigure(id string, rounds int, concurrent bool, seed int64) core.Scenario {
+	return core.Scenario{ID: id, Class: "BufferedChannelQueue.reconfigure", Run: func(c *core.Ctx) {
+		rng := rand.New(rand.NewSource(seed))
+		for r := 0; r < rounds; r++ {
+			c.Eval(1)
+			capy, buf := 1+rng.Intn(3), 2+rng.Intn(7)
+			interval := []time.Duration{20 * time.Microsecond, 100 * time.Microsecond}[rng.Intn(2)]
+			q := fpgo.NewBufferedChannelQueue[int64](capy, buf, 4)
+			q.SetLoadFromPoolDuration(interval)
+			q.SetFreeNodeHookPoolIntervalDuration(interval)
+			c.Distinct(fmt.Sprintf("%s cap%d buf%d", id, capy, buf))
+			rep := map[string]any{"scenario": id, "round": r, "capacity": capy, "buffer_at_construction": buf}
+			var trace []string
+			var accepted []int64
+			var delivered atomic.Int64
+			gotCh := make(chan int64, 4096)
+			stop := make(chan struct{})
+			consumerDone := make(chan struct{})
+			if concurrent {
+				go func() {
+					defer close(consumerDone)
+					for {
+						v, err := q.Poll()
+						if err == nil {
+							gotCh <- v
+							delivered.Add(1)
+							continue
+						}
+						select {
+						case <-stop:
+							return
+						default:
+							time.Sleep(interval)
+						}
+					}
+				}()
+			} else {
+				close(consumerDone)
+			}
+			next := int64(1)
+			cur := buf
+			bad := false
+			steps := 30 + rng.Intn(40)
+			for s := 0; s < steps && !bad; s++ {
+				switch k := rng.Intn(10); {
+				case k < 6: // Offer
+					held := int64(len(accepted)) - delivered.Load()
+					err := q.Offer(next)
+					heldAfter := int64(len(accepted)) - delivered.Load()
+					trace = append(trace, fmt.Sprintf("Offer(%d)=%v", next, err))
+					if err == nil {
+						accepted = append(accepted, next)
+						// (with a concurrent consumer 'held' may have dropped meanwhile: use the smaller reading)
+						// and the consumer may have removed one value it has not counted yet)
+						slack := int64(0)
+						if concurrent {
+							slack = 1
+						}
+						if h := min64(held, heldAfter) - slack; h >= int64(capy+cur) {
+							rep["trace"] = trace
+							c.Violationf("reconfigure:accepted-beyond-bound", rep, "Offer accepted a value while %d values were held: capacity %d + current bufferSizeMaximum %d", h, capy, cur)
+							bad = true
+						}
+					} else if err == fpgo.ErrQueueIsFull {
+						if h := max64(held, heldAfter); h < int64(cur) { // (the readings over-estimate what is really held)
+							rep["trace"] = trace
+							c.Violationf("reconfigure:full-below-maximum", rep, "Offer returned ErrQueueIsFull while only %d values were held and the current bufferSizeMaximum is %d", h, cur)
+							bad = true
+						}
+					} else {
+						rep["trace"] = trace
+						c.Violationf("reconfigure:wrong-error", rep, "Offer returned %v", err)
+						bad = true
+					}
+					next++
+				case k < 8: // reconfigure: shrink below what is buffered, to 0, or grow
+					cur = rng.Intn(10)
+					q.SetBufferSizeMaximum(cur)
+					trace = append(trace, fmt.Sprintf("SetBufferSizeMaximum(%d)", cur))
+				case k < 9 && !concurrent:
+					v, err := q.Poll()
+					trace = append(trace, fmt.Sprintf("Poll=%d,%v", v, err))
+					if err == nil {
+						gotCh <- v
+						delivered.Add(1)
+					}
+				default: // let the loader run some passes
+					time.Sleep(interval * time.Duration(1+rng.Intn(5)))
+					trace = append(trace, "pause")
+				}
+			}
+			// quiescence: drain
+			total := int64(len(accepted))
+			t0 := time.Now()
+			stranded := false
+			for delivered.Load() < total && !bad {
+				if !concurrent {
+					if v, err := q.Poll(); err == nil {
+						gotCh <- v
+						delivered.Add(1)
+						t0 = time.Now()
+						continue
+					}
+				}
+				time.Sleep(interval)
+				if time.Since(t0) > 3*time.Second {
+					if quiet, _ := core.QuietNow(); quiet || !concurrent {
+						stranded = true
+						break
+					}
+					if time.Since(t0) > 40*time.Second {
+						c.Inconclusive("drain watchdog in " + id)
+						bad = true
+					}
+				}
+			}
+			cnt := q.Count()
+			close(stop)
+			<-consumerDone
+			close(gotCh)
+			var got []int64
+			for v := range gotCh {
+				got = append(got, v)
+			}
+			if len(trace) > 80 {
+				trace = trace[len(trace)-80:]
+			}
+			rep["trace"] = trace
+			if !bad {
+				if stranded {
+					c.Violationf("reconfigure:lost-or-stranded", rep, "%d values were accepted, only %d could be retrieved (Count()=%d) after the producer stopped: accepted %v, retrieved %v", total, len(got), cnt, tail64(accepted, 24), tail64(got, 24))
+				} else {
+					for i := range got {
+						if i >= len(accepted) || got[i] != accepted[i] {
+							c.Violationf("reconfigure:order-or-invented", rep, "retrieved %v, accepted %v (single producer: FIFO)", tail64(got, 24), tail64(accepted, 24))
+							break
+						}
+					}
+					if cnt != 0 {
+						c.Violationf("reconfigure:count", rep, "Count()=%d after every accepted value was retrieved", cnt)
+					}
+				}
+			}
+			core.Catch(q.Close)
+			if bad || stranded {
+				return
+			}
+		}
+	}}
+}
+
+func min64(a, b int64) int64 {
+	if a < b {
+		return a
+	}
+	return b
+}
+func max64(a, b int64) int64 {
+	if a > b {
+		return a
+	}
+	return b
+}
+func tail64(v []int64, n int) []int64 {
+	if len(v) > n {
+		return v[len(v)-n:]
+	}
+	return v
 }
